@@ -6,6 +6,7 @@ V='/verif'; R='/repo'
 tmpv='/tmp/seedmatrix-verif'
 os.makedirs(tmpv+'/evidence',exist_ok=True)
 shutil.copy(V+'/known_findings.json',tmpv)
+shutil.copy(V+'/bin/zcheck',tmpv+'/zcheck')  # a private copy: rebuilding the checker while the matrix runs must not change it
 assert subprocess.run(['git','-C',R,'diff','--quiet']).returncode==0, "/repo dirty"
 rows=[]
 for d in sorted(glob.glob(V+'/seeded/C*')):
@@ -24,7 +25,7 @@ for d in sorted(glob.glob(V+'/seeded/C*')):
     else:
         subprocess.run(['patch','-p1','-s','-f','-d',R,'-i',patch],check=True)
     try:
-        out=subprocess.run([V+'/bin/zcheck','-all','-verif',tmpv],capture_output=True,text=True).stdout
+        out=subprocess.run([tmpv+'/zcheck','-all','-verif',tmpv],capture_output=True,text=True).stdout
     finally:
         subprocess.run(['git','-C',R,'checkout','--','.'],check=True)
         subprocess.run(['git','-C',R,'clean','-fdq'],check=True)
